@@ -181,9 +181,7 @@ class StmtMixin:
         cell = self.path.cell(base)
         seq = cell.seq
         lo2, hi2 = seqops.clamp_slice(seq, lo, hi)
-        left = seqops.slice_(seq, 0, lo2 if isinstance(lo2, int) else mk("int", lo2))
-        right = seqops.slice_(seq, hi2 if isinstance(hi2, int) else mk("int", hi2), None)
-        cell.seq = seqops.concat(left, right, seq.kind)
+        cell.seq = seqops.remove_range(seq, lo2, hi2)
 
     def del_item(self, base, idx):
         if isinstance(base, Ref):
@@ -624,19 +622,19 @@ class StmtMixin:
 
     def check_invariant(self, inv, frame, idx, name, it):
         for cname, fn in inv.clauses:
-            v = self.call_value(fn, self._inv_args(fn, frame, idx, it), {})
+            v = self.spec_call(fn, self._inv_args(fn, frame, idx, it))
             t = self.truthy(v)
             self.path.oblige(f"{name}.{cname}", t if not isinstance(t, bool) else z3.BoolVal(t))
 
     def assume_invariant(self, inv, frame, idx, it):
         for cname, fn in inv.clauses:
-            v = self.call_value(fn, self._inv_args(fn, frame, idx, it), {})
+            v = self.spec_call(fn, self._inv_args(fn, frame, idx, it))
             self.path.assume(self.truthy(v))
 
     def eval_variant(self, inv, frame, idx, it):
         if inv.decreases is None:
             return None
-        return self.call_value(inv.decreases, self._inv_args(inv.decreases, frame, idx, it), {})
+        return self.spec_call(inv.decreases, self._inv_args(inv.decreases, frame, idx, it))
 
     def havoc(self, frame, names, attrs, mutated, inv):
         """Replace everything the loop body may write by fresh values of the same shape."""
